@@ -60,3 +60,30 @@ package cryptoutil
 //@ trusted func ConcatAndHashSha256
 //@   ensures result != nil && fresh(result)
 //@   ensures len(slices) == 2 ==> bytes(result) == sha256v(bcat(bytes(slices[0]), bytes(slices[1])))
+
+//@ # ----- C19: the helpers that decode untrusted bytes return errors, never panic -----
+//@ extern crypto/aes.NewCipher(key) (c, err)
+//@   ensures err == nil ==> c != nil
+//@ extern crypto/cipher.NewGCM(c) (g, err)
+//@   requires c != nil
+//@   ensures err == nil ==> g != nil
+//@ extern (crypto/cipher.AEAD).NonceSize(g) (n)
+//@   pure
+//@   ensures n == 12
+//@ extern (crypto/cipher.AEAD).Open(g, dst, nonce, ciphertext, ad) (p, err)
+//@   requires [C19.gcm.nonce-size] len(nonce) == 12
+//@ extern (crypto/cipher.AEAD).Seal(g, dst, nonce, plaintext, ad) (c)
+//@   requires [C19.gcm.nonce-size] len(nonce) == 12
+//@ extern (crypto/cipher.Block).BlockSize(c) (n)
+//@   pure
+//@   ensures n == 16
+//@ extern crypto/cipher.NewCTR(block, iv) (s)
+//@   requires [C19.ctr.iv-size] block != nil && len(iv) == 16
+//@   ensures s != nil
+//@ func AESGCMDecrypt
+//@   for C19
+//@   safety
+//@ func AESCTRStream
+//@   for C19
+//@   safety
+//@   ensures ret1 == nil ==> ret0 != nil
